@@ -16,7 +16,7 @@ id,prop,needs=sys.argv[1:4]
 n=json.load(open(needs)).get(id,"")
 demos=sorted(os.path.basename(p) for p in glob.glob(f"seeded/{id}/*_test.go.txt"))
 meta={"id":id,"breaks_property":prop,"needs_to_manifest":n,
- "produced_by":"independent sub-agent given only the property text and a scratch worktree of /repo (second round: told which two changes had already been made for this property and asked for a different location, mechanism and trigger)",
+ "produced_by":"independent sub-agent given only the property text and a scratch worktree of /repo (later rounds: told which changes had already been made for this property and asked for a different location, mechanism and trigger)",
  "confirmed":{"how":"tools/confirm_mutant.sh in a scratch worktree of /repo HEAD: patch applies, go build ./... passes, the unedited suite (go test -vet=off -count=1 ./...) passes with the patch, the demonstration fails with the patch and passes after reverting it","demonstration":demos},
  "patch_base":"applies to /repo at the commit current when seeded (after the fix: commits)",
  "detected_by":[],"not_detected_by":[]}
